@@ -64,8 +64,10 @@ def write(pid, tier, seed, spec, out, wall, violations=0):
         "violations": violations,
     }
     # schema: model_checking falls back to the generic keys (evaluations >= 1, distinct_nontrivial >= 2)
-    os.makedirs(os.path.join(VERIF, "evidence"), exist_ok=True)
-    path = os.path.join(VERIF, "evidence", pid + ".json")
+    import kanirun
+    evdir = os.path.join(VERIF, "evidence") if not kanirun.ALT else os.path.join(VERIF, ".work", "evidence" + kanirun.ALT)
+    os.makedirs(evdir, exist_ok=True)
+    path = os.path.join(evdir, pid + ".json")
     with open(path + ".tmp", "w") as f:
         json.dump(ev, f, indent=1, default=str)
     os.replace(path + ".tmp", path)
